@@ -251,25 +251,26 @@ PROPS["C16"] = dict(
     proof_files=["gen/EngineGen.v", "proofs/AnchorsEngine.v", "proofs/LibraryProofs.v", "props/C16.v"],
     props_files=["props/C16.v"],
     harness="C16", corr_files=["model/Library.v", "model/CorrLibrary.v"],
-    theorems=["C16_unique_names", "C16_build", "C16_failed_build_unchanged_refuted", "C16_failed_build_unchanged_partial", "C16_removed_from_instance",
+    theorems=["C16_unique_names", "C16_build", "C16_failed_build_unchanged", "C16_removed_from_instance",
               "C16_only_rules_in_force", "C16_removed_from_library", "C16_removed_rules_refuted", "C16_removed_rules_partial", "C16_rebuild", "C16_frame"],
     trusted=LIBRARY_TRUST,
     assumptions=[
         "rule bodies are abstract (any type B, any condition semantics holds : B -> F -> bool, any iteration order of the entry map): what a rule computes is the subject of C01-C07; "
         "here a fired rule is identified with the body stored under its name",
-        "syntactically valid resources only (acceptance of texts is C17); a rejected resource still adds its acceptable rules (D10b, modelled as the code is; "
-        "C16_failed_build_unchanged_refuted / _partial)",
+        "syntactically valid resources only (acceptance of texts is C17); a build is all-or-nothing (KnowledgeBase.Checkpoint / restore, engine commit 4ed034e): a rejected "
+        "resource leaves every knowledge base entry, every instance and the tombstone supply as they were (C16_failed_build_unchanged, full); the one trace it can leave is "
+        "the EMPTY knowledge base that GetKnowledgeBase creates for a key that did not exist before (modelled, and observed: NewKnowledgeBaseInstance then succeeds on it)",
         "the removed RULE (its entry, renamed to a tombstone) is in force again after store+load because the Deleted flag is not stored (D8): C16_removed_rules_refuted; "
         "C16_removed_rules_partial holds for histories that never store a knowledge base holding a removed rule (safe_history, decidable, Example safe_example_ok); "
         "the removed NAME stays out of force across store+load without side condition (C16_removed_from_library)",
-        "NewKnowledgeBaseInstance is modelled as always succeeding on an existing key: its failure after a rejected resource whose expressions are new (D10a) is a recorded "
-        "finding replayed on every run; the generated histories stay outside that region (rejected rules re-use expressions the knowledge base already holds)",
+        "NewKnowledgeBaseInstance is modelled as always succeeding on an existing key; the generated histories build rejected resources whose expressions are new to the "
+        "working memory (the former region D10a) and the former witnesses of D10a / D10b run first on every check as fixed regression histories that must pass",
         "one goroutine; a removal during a run is a fact method called from an action (between two passes), never concurrent with the engine's range over the entry map",
     ],
     explanation="Invariants of the library state machine are proved by induction over arbitrary operation histories (build / remove on library and instance / new instance / "
                 "store+load / execute, any number of keys, instances, rules): unique active names in every reachable state, exact build verdict with the existing rule left in "
                 "place, removal permanent on the instance and on all later instances (name level, also across store+load), evaluated / fired / fetched rules are rules in force "
-                "(also for a removal during the run), re-use of a removed name denotes the new rule, frame. Two statements are refuted by vm_compute witnesses (D8, D10b) and "
+                "(also for a removal during the run), re-use of a removed name denotes the new rule, a rejected build changes nothing, frame. One statement is refuted by a vm_compute witness (D8) and "
                 "proved in partial form. Random histories of 3-14 operations run on the real library; after every step every key (fresh instances: Execute with listener, "
                 "FetchMatchingRules) and every live instance are probed; the model replays each history inside Coq (c16_case_diff: build verdicts, instance creation, per-cycle "
                 "evaluated sets with candidate flags, fired rule + payload written, fetched sets) and an independent shadow map in Go predicts the same observables.",
@@ -281,7 +282,7 @@ PROPS["C09"] = dict(
     proof_files=["gen/EngineGen.v", "proofs/AnchorsEngine.v", "proofs/LibraryProofs.v", "proofs/CloneProofs.v", "proofs/BuildGraphProofs.v", "props/C09.v"],
     props_files=["props/C09.v"],
     harness="C09", corr_files=["model/Clone.v", "model/CorrClone.v", "model/BuildGraph.v", "model/Library.v", "model/CorrLibrary.v"],
-    theorems=["C09_clone", "C09_accepted_build", "C09_orphan", "C09_disjoint", "C09_instance", "C09_frame", "C09_isolation"],
+    theorems=["C09_clone", "C09_accepted_build", "C09_build_history", "C09_orphan", "C09_disjoint", "C09_instance", "C09_frame", "C09_isolation"],
     trusted=LIBRARY_TRUST + [
         "hand-written pointer-graph model of KnowledgeBase.Clone coq/model/Clone.v (nodes = kind, scalar label, children in field order; clone table; the five "
         "working-memory maps re-targeted through the table) - validated on every run against the object graphs of blueprint and instance read by reflection",
@@ -292,10 +293,12 @@ PROPS["C09"] = dict(
         "the concurrency clause is proved only as: for every interleaving of ATOMIC steps of k instances with disjoint cells (sequential consistency: a schedule is a list) "
         "each instance ends with the result of its own sequential run (C09_isolation). The harness runs N goroutines x M instances under `go build -race` and compares "
         "with sequential runs: supporting evidence, never counted as an obligation",
-        "closed graphs: no node of the working memory is an orphan. C09_orphan proves an orphan makes the clone fail; a rejected resource leaves orphans (D10a, open known "
-        "finding, replayed on every run and reproduced by the model on the exported graph). C09_accepted_build proves that the graph a bottom-up builder with interning "
-        "by tree (coq/model/BuildGraph.v: the listener + WorkingMemory.Add*, snapshots taken as injective - C07) makes from accepted rules only is well formed and closed; "
-        "that builder is a hand-written model of the listener's construction order, tied to the code only through closedb on every exported graph (proved sound)",
+        "closed graphs: no node of the working memory is an orphan. C09_orphan proves an orphan makes the clone fail - what the roll-back of a rejected resource prevents "
+        "(former finding D10a, fixed by engine commit 4ed034e; its witness runs first on every check and must pass). C09_build_history proves that the graph a bottom-up builder "
+        "with interning by tree (coq/model/BuildGraph.v: the listener + WorkingMemory.Add*, snapshots taken as injective - C07; a rejected resource is walked and then restored to "
+        "the checkpoint: rule entries and snapshot maps as before, the walk's nodes stay as unreferenced garbage) makes from ANY sequence of accepted and rejected resources is well "
+        "formed and closed; that builder is a hand-written model of the listener's construction order and of Checkpoint/restore, tied to the code through closedb on every exported "
+        "graph (proved sound) - half of the exported knowledge bases have received a rejected resource with new expressions",
         "'behave exactly like the library's': the clone unfolds to the same trees under the same rule keys with the working-memory maps re-targeted (C09_clone); "
         "behaviour then follows from the evaluator theorems (C01-C08), which are stated over trees; on the library machine Execute / FetchMatchingRules of a new "
         "instance are those of the library's entries (C09_instance)",
@@ -303,11 +306,13 @@ PROPS["C09"] = dict(
     ],
     explanation="KnowledgeBase.Clone is modelled on pointer graphs with a clone table; for every well-formed closed graph the clone succeeds, is a copy along the table "
                 "(sharing preserved both ways), unfolds to the same trees, re-targets the working-memory maps and uses only fresh ids, so blueprint / instance / later "
-                "instances are pairwise disjoint; an orphan in the working memory makes it fail. Isolation is proved as a frame theorem on the library machine and as "
+                "instances are pairwise disjoint; an orphan in the working memory makes it fail, and the graph built by any sequence of accepted and rejected (rolled back) resources has "
+                "none. Isolation is proved as a frame theorem on the library machine and as "
                 "commutation / interleaving theorems for steps local to disjoint cell sets. The harness walks the object graphs of blueprint and three instances by "
                 "reflection (isomorphism along the canonical traversal, no shared mutable object), hands blueprint and instance graphs to the model inside Coq (clone "
                 "success, closedness, instance = model clone along the model's table), compares instance behaviour with the library's knowledge base, dumps all mutable "
-                "state of a second instance and of the blueprint around execute / retract / remove in the first, runs library histories, and runs goroutines under the "
+                "state of a second instance and of the blueprint around execute / retract / remove in the first, builds a rejected resource with new expressions into every second "
+                "knowledge base (which must stay exactly as it was), runs library histories, and runs goroutines under the "
                 "race detector as supporting evidence.",
 )
 # ---- C09 -- end ----
@@ -387,7 +392,8 @@ MANIFEST_TEXT = {
     # ---- C09 -- begin ----
     "C09": dict(
         text="Machine-checked proof (Coq 8.16.1) over a pointer-graph model of KnowledgeBase.Clone (nodes with ids, children in field order, clone table, the five "
-             "working-memory maps) and over the library state machine: every well-formed knowledge base without orphan nodes is cloned successfully; the instance is a "
+             "working-memory maps) and over the library state machine: every well-formed knowledge base without orphan nodes is cloned successfully, and the knowledge base built by any "
+             "sequence of accepted and rejected (rolled back) resources is well formed and has no orphan; the instance is a "
              "copy along the clone table (shared nodes stay shared, distinct stay distinct), unfolds to the same rule trees, has the working-memory maps re-targeted and "
              "uses only fresh ids, so blueprint, instance and later instances are pairwise disjoint; operations on one instance change no other instance and no library "
              "knowledge base; steps local to disjoint cells commute and any interleaving of atomic steps gives each instance its sequential result. Tied to the code by a "
@@ -395,8 +401,8 @@ MANIFEST_TEXT = {
              "by behavioural comparison and isolation dumps, and by library histories.",
         note="PARTIAL. Trust: Coq kernel; hand-written clone / library models (validated by correspondence, not verified against Go); the reflection walker; harness. Data-race "
              "freedom under the Go memory model is outside any Gallina model: interleavings are proved only for atomic steps under sequential consistency; goroutines under "
-             "`go build -race` are supporting evidence, not an obligation. A rejected resource leaves orphan nodes and breaks instance creation (D10a, open known finding; the "
-             "model proves that orphans make the clone fail). No axioms (closed under the global context).",
+             "`go build -race` are supporting evidence, not an obligation. The builder model (bottom-up interning, checkpoint / restore) is hand-written; the former finding D10a "
+             "(orphans left by a rejected resource broke instance creation) is fixed and its witness is a regression scenario that must pass. No axioms (closed under the global context).",
         technique="Rocq/Coq proof over a pointer-graph model of Clone (clone-table invariant by induction over DAGs) + frame / interleaving theorems + reflection-based graph correspondence (vm_compute)",
     ),
     # ---- C09 -- end ----
@@ -406,13 +412,13 @@ MANIFEST_TEXT = {
              "rule body, live instances as own copies, tombstone renaming, the Grl duplicate test, AddRuleEntry, both RemoveRuleEntry, instance creation, store+load, the flag "
              "reading part of Execute / FetchMatchingRules with the guards regenerated from GruleEngine.go), by induction over operation histories of any length: active names "
              "are unique in every reachable state; a build is rejected exactly when a name occurs twice in the resource or exists already, and every existing entry stays in "
-             "place; a removed name is out of force on that instance for ever and on every instance created later (also across store+load) until it is built again, and then "
+             "place and a rejected build changes nothing; a removed name is out of force on that instance for ever and on every instance created later (also across store+load) until it is built again, and then "
              "denotes the new rule; only rules in force are evaluated, fired or fetched, also when a rule is removed during the run; operations touch only what they address. "
              "Tied to the code by random histories run on the real library and replayed by the model inside Coq (vm_compute), plus a shadow-map oracle in Go.",
         note="Trust: Coq kernel; hand-written library model (validated by the history correspondence, not verified against Go); UUIDs modelled by a counter; harness. Partial: the "
              "rule-level statement 'a removed rule is never in force again' is refuted in Coq for remove-store-load (D8, open known finding) and proved for histories that never "
-             "store a knowledge base holding a removed rule; 'a rejected build changes nothing' is refuted (D10b) and proved when every rule of the resource is a duplicate; "
-             "instance creation failing after a rejected resource with new expressions (D10a) is an open known finding outside the model. No axioms (closed under the global context).",
+             "store a knowledge base holding a removed rule. The former findings D10a / D10b (a rejected resource left orphan nodes / added its acceptable rules) are fixed in the "
+             "engine; the model's build is all-or-nothing and their witnesses are regression histories that must pass. No axioms (closed under the global context).",
         technique="Rocq/Coq proof: invariants of an executable library state machine by induction over operation histories + history correspondence (vm_compute) + shadow-map oracle",
     ),
     # ---- C16 -- end ----
